@@ -13,7 +13,38 @@ import re, sys, os
 sys.path.insert(0, os.path.dirname(__file__))
 from rs2lean import TranslateError, strip_comments, find_fn, match_brace
 REPO = os.environ.get('VERIF_REPO', '/repo')
-FIELDS = {'funding_spend_seen': 'fundingSpendSeen', 'lockdown_from_offchain': 'lockdownFromOffchain', 'holder_tx_signed': 'holderTxSigned'}
+FIELDS = {'funding_spend_seen': 'fundingSpendSeen', 'lockdown_from_offchain': 'lockdownFromOffchain', 'holder_tx_signed': 'holderTxSigned',
+          'is_manual_broadcast': 'isManualBroadcast', 'funding_seen_onchain': 'fundingSeenOnchain'}
+
+def bool_expr(txt, what, locals_={}):
+    """translate a Rust bool expression over `self.<flag>` (the five monitor flags), the given local bools, `!`, `&&`, `||` and
+    parentheses into Lean (fully parenthesised); anything else is a TRANSLATE-ERROR"""
+    toks = re.findall(r'\|\||&&|!|\(|\)|self\.\w+|\w+|\S', txt)
+    pos = [0]
+    def peek(): return toks[pos[0]] if pos[0] < len(toks) else None
+    def eat(): pos[0] += 1; return toks[pos[0] - 1]
+    def unary():
+        t = peek()
+        if t == '!': eat(); return '!' + unary()
+        if t == '(':
+            eat(); e = or_(); 
+            if peek() != ')': raise TranslateError("%s: unbalanced parenthesis in %r" % (what, txt))
+            eat(); return '(' + e + ')'
+        if t is not None and t.startswith('self.') and t[5:] in FIELDS: eat(); return 'm.' + FIELDS[t[5:]]
+        if t in locals_: eat(); return locals_[t]
+        raise TranslateError("%s: term not understood: %r in %r" % (what, t, txt))
+    def and_():
+        e = [unary()]
+        while peek() == '&&': eat(); e.append(unary())
+        return ' && '.join(e) if len(e) == 1 else '(' + ' && '.join(e) + ')'
+    def or_():
+        e = [and_()]
+        while peek() == '||': eat(); e.append(and_())
+        return ' || '.join(e)
+    r = or_()
+    if pos[0] != len(toks): raise TranslateError("%s: trailing tokens in %r" % (what, txt))
+    if r.startswith('(') and r.endswith(')') and r.count('(') == 1: r = r[1:-1]
+    return r
 
 def lcv(n): return n[0].lower() + n[1:]
 
@@ -22,12 +53,35 @@ def main(out_path):
     cm = open(os.path.join(REPO, 'lightning/src/chain/chainmonitor.rs')).read()
     _, _, b = find_fn(src, 'no_further_updates_allowed', after='fn is_closed_without_updates(&self)')
     e = ' '.join(strip_comments(b)[1:-1].split())
-    parts = [p.strip() for p in e.split('||')]
-    terms = []
-    for p in parts:
-        m = re.match(r'^self\.(\w+)$', p)
-        if not m or m.group(1) not in FIELDS: raise TranslateError("no_further_updates_allowed: term not understood: %r" % p)
-        terms.append('m.' + FIELDS[m.group(1)])
+    nfua = bool_expr(e, 'no_further_updates_allowed')
+    # ---- the manual-broadcast decisions around `holder_tx_signed` (who really signs / broadcasts, and when)
+    _, _, g0 = find_fn(src, 'generate_claimable_outpoints_and_watch_outputs')
+    g0f = ' '.join(strip_comments(g0).split())
+    _, _, q0 = find_fn(src, 'queue_latest_holder_commitment_txn_for_broadcast')
+    q0f = ' '.join(strip_comments(q0).split())
+    mg = re.findall(r'if ([^{}]*) \{ return \(Vec::new\(\), Vec::new\(\)\); \}', g0f)
+    if len(mg) != 1: raise TranslateError("generate_claimable_outpoints_and_watch_outputs: expected exactly one `if .. { return (Vec::new(), Vec::new()); }`")
+    mq = re.findall(r'if ([^{}]*) \{ log_info!\([^;]*\); return; \}', q0f)
+    if len(mq) != 1: raise TranslateError("queue_latest_holder_commitment_txn_for_broadcast: expected exactly one `if .. { log_info!(..); return; }`")
+    LOC = {'require_funding_seen': 'requireFundingSeen'}
+    skip_g, skip_q = bool_expr(mg[0], 'generate_claimable_outpoints_and_watch_outputs early return', LOC), bool_expr(mq[0], 'queue_latest_holder_commitment_txn_for_broadcast early return', LOC)
+    if skip_g != skip_q: raise TranslateError("the not-before-funding-seen conditions of generate_claimable_outpoints_and_watch_outputs (%s) and queue_latest_holder_commitment_txn_for_broadcast (%s) differ" % (skip_g, skip_q))
+    # the flag is set BEFORE the early return (a manual-broadcast channel is frozen although nothing was broadcast yet), and the
+    # force-close monitor event is pushed before it too
+    ia, ib, ic = g0f.find('self.pending_monitor_events.push(event);'), g0f.find('self.holder_tx_signed = true;'), g0f.find('if ' + mg[0] + ' {')
+    if not (0 <= ia < ib < ic): raise TranslateError("generate_claimable_outpoints_and_watch_outputs: order {push HolderForceClosed event; holder_tx_signed = true; early return} changed")
+    if 'self.generate_claimable_outpoints_and_watch_outputs(Some(reason), require_funding_seen);' not in q0f or q0f.find('self.generate_claimable_outpoints_and_watch_outputs(') > q0f.find('if ' + mq[0] + ' {'):
+        raise TranslateError("queue_latest_holder_commitment_txn_for_broadcast: generate_claimable_outpoints_and_watch_outputs(Some(reason), require_funding_seen) no longer precedes the early return")
+    _, _, bc = find_fn(src, 'block_confirmed')
+    bcf = ' '.join(strip_comments(bc).split())
+    mb = re.search(r'self\.generate_claimable_outpoints_and_watch_outputs\(Some\(reason\), false\); if ([^{}]*) \{ claimable_outpoints\.append\(&mut new_outpoints\); watch_outputs\.append\(&mut new_outputs\); \} else \{', bcf)
+    if not mb: raise TranslateError("block_confirmed: HTLC-timeout broadcast gate `generate..(Some(reason), false); if <cond> { claimable_outpoints.append(..) ..} else {` not found")
+    timeout_ok = bool_expr(mb.group(1), 'block_confirmed timeout broadcast gate')
+    flat_src = ' '.join(strip_comments(src).split())
+    mt = re.findall(r'let funding_seen_before = self\.funding_seen_onchain;.*?if ([^{}]*?) \{ should_broadcast_commitment = true; \}', flat_src)
+    if len(mt) != 1: raise TranslateError("transactions_confirmed: `let funding_seen_before = self.funding_seen_onchain; .. if <cond> { should_broadcast_commitment = true; }` not found exactly once")
+    if len(re.findall(r'funding_seen_onchain = (true|false);', flat_src)) != 1 or 'self.funding_seen_onchain = true;' not in flat_src: raise TranslateError("funding_seen_onchain must be assigned exactly once (= true)")
+    on_seen = bool_expr(mt[0].split(' if ')[-1] if ' if ' in mt[0] else mt[0], 'transactions_confirmed broadcast-on-funding-seen', {'funding_seen_before': 'fundingSeenBefore'})
     # step variants
     m = re.search(r'pub\(crate\) enum ChannelMonitorUpdateStep\s*\{', src)
     if not m: raise TranslateError("enum ChannelMonitorUpdateStep not found")
@@ -80,10 +134,18 @@ def main(out_path):
     if not re.search(r'ChannelMonitorUpdateStatus::InProgress \} else \{ persist_res \}', blk): raise TranslateError("ChainMonitor::update_channel_internal: deferral no longer returns InProgress / persist_res")
     L = ['/- GENERATED by tools/gen_holder_gate.py from lightning/src/chain/channelmonitor.rs + chainmonitor.rs — do not edit. -/',
          'namespace Ldk.HolderGate', '',
-         '/-- the three "channel is closed" flags of ChannelMonitorImpl -/', 'structure Flags where',
-         '  fundingSpendSeen : Bool := false', '  lockdownFromOffchain : Bool := false', '  holderTxSigned : Bool := false', '  deriving DecidableEq, Repr, Inhabited', '',
+         '/-- the three "channel is closed" flags of ChannelMonitorImpl and the two manual-broadcast-funding flags -/', 'structure Flags where',
+         '  fundingSpendSeen : Bool := false', '  lockdownFromOffchain : Bool := false', '  holderTxSigned : Bool := false',
+         '  isManualBroadcast : Bool := false', '  fundingSeenOnchain : Bool := true', '  deriving DecidableEq, Repr, Inhabited', '',
          '/-- ChannelMonitorUpdateStep variants -/', 'inductive Step where', '  | ' + ' | '.join(lcv(v) for v in variants), '  deriving DecidableEq, Repr, Inhabited', '',
-         '/-- `ChannelMonitorImpl::no_further_updates_allowed` -/', 'def noFurtherUpdatesAllowed (m : Flags) : Bool := ' + ' || '.join(terms), '',
+         '/-- `ChannelMonitorImpl::no_further_updates_allowed` -/', 'def noFurtherUpdatesAllowed (m : Flags) : Bool := ' + nfua, '',
+         '/-- generate_claimable_outpoints_and_watch_outputs / queue_latest_holder_commitment_txn_for_broadcast: nothing is queued for',
+         '    broadcast (holder_tx_signed and the HolderForceClosed event are set all the same: pinned order) -/',
+         'def skipBroadcastUntilFundingSeen (requireFundingSeen : Bool) (m : Flags) : Bool := ' + skip_g, '',
+         '/-- block_confirmed, outbound HTLC timed out: are the holder commitment claims queued (after holder_tx_signed was set)? -/',
+         'def timeoutBroadcastAllowed (m : Flags) : Bool := ' + timeout_ok, '',
+         '/-- transactions_confirmed: the funding of a manual-broadcast channel shows up => broadcast the holder commitment now? -/',
+         'def broadcastOnFundingSeen (fundingSeenBefore : Bool) (m : Flags) : Bool := ' + on_seen, '',
          '/-- the `is_pre_close_update` classification of update_monitor -/', 'def isPreCloseStep : Step → Bool']
     for v in variants: L.append('  | .%s => %s' % (lcv(v), 'true' if pre[v] else 'false'))
     L += ['', '/-- the value update_monitor returns (true = Ok): `if ret.is_ok() && no_further_updates_allowed() && is_pre_close_update { Err } else { ret }`,',
